@@ -217,13 +217,13 @@ Proof.
   destruct e; try exact IH. destruct He.
 Qed.
 
-Lemma scoped_release_counts sc t c m w w' p out :
-  scoped_shape sc t c m w w' -> w_trace w = [] -> run nopw t p w = (out, w') ->
+Lemma scoped_release_counts sc t c m body w w' p out :
+  scoped_shape sc t c m body w w' -> w_trace w = [] -> run nopw t p w = (out, w') ->
   (forall l, hc t (w_raw w l) = 0) -> (forall x, w_raw w' x = w_raw w x) ->
   can_all m (kleaves (shape_of sc c)) (w_raw w) = true -> NoDup (leaves (shape_of sc c)) ->
   forallb (fun l => Nat.eqb (releases_of l (rev (w_trace w'))) 1) (leaves (shape_of sc c)) = true.
 Proof.
-  intros [w1 [w2 [evA [evR [TA [NA [BA [RA [NR [HA [Hraw [F [TR FR]]]]]]]]]]]]] Tw Rn H0 Hsame Can ND.
+  intros [w1 [w2 [evA [evR [TA [NA [BA [RA [NR [HA [Hraw [_ [F [TR FR]]]]]]]]]]]]]] Tw Rn H0 Hsame Can ND.
   destruct (fr_tr _ _ F) as [U [TU FU]]. cbn [emit w_trace] in TU.
   destruct (run_acct nopw t _ _ _ _ Rn) as [evs [T [_ Hacc]]]. rewrite Tw, app_nil_r in T.
   assert (Eevs : evs = evR ++ U ++ EMark t 1 :: evA).
@@ -297,16 +297,16 @@ Proof.
         assert (Sc : forall lent body, (f = FScoped lent body \/ f = FScopedTry lent body) -> (rc = ROk \/ rc = RPanicked) ->
                   forallb (fun l => Nat.eqb (releases_of l (rev (w_trace w'))) 1) (leaves (shape_of sc c)) = true).
         { intros lent body Hf Hrc.
-          assert (IS : is_scoped (AAcquire c m f) = Some (c, m)) by (destruct Hf as [-> | ->]; reflexivity).
-          pose proof (cq_scoped _ _ _ _ _ _ _ CO c m IS) as X. fold lc rc in X.
-          assert (Sh : scoped_shape sc t c m (clear_trace (h_w h)) w') by (destruct Hrc as [E|E]; rewrite E in X; exact X).
+          assert (IS : is_scoped (AAcquire c m f) = Some (c, m, body)) by (destruct Hf as [-> | ->]; reflexivity).
+          pose proof (cq_scoped _ _ _ _ _ _ _ CO c m body IS) as X. fold lc rc in X.
+          assert (Sh : scoped_shape sc t c m body (clear_trace (h_w h)) w') by (destruct Hrc as [E|E]; rewrite E in X; exact X).
           assert (Stop : stop_code rc = false) by (destruct Hrc as [E|E]; rewrite E; reflexivity).
           pose proof (acq_haskey _ _ _ _ _ _ Hp) as Hk.
           assert (H0 : forall l, hc t (w_raw (clear_trace (h_w h)) l) = 0).
           { intros l. apply hc_not_holding. apply (haskey_holds_nothing sc h ms t Q Rt Hk). }
           destruct (wh_colls _ W t c m f Hin) as [s [Hn [Ha ND]]].
           assert (Hs : shape_of sc c = s) by (unfold shape_of; now rewrite Hn).
-          apply (scoped_release_counts sc t c m _ w' p out Sh eq_refl Rn H0).
+          apply (scoped_release_counts sc t c m body _ w' p out Sh eq_refl Rn H0).
           - intros x. rewrite (cq_raw _ _ _ _ _ _ _ CO Stop x). fold lc rc. destruct Hf as [-> | ->]; reflexivity.
           - (* the closure ran, so the acquisition had succeeded *)
             destruct (can_all m (kleaves (shape_of sc c)) (w_raw (clear_trace (h_w h)))) eqn:Cn; [reflexivity|]. exfalso.
